@@ -5,6 +5,7 @@
 #include "vproxy.h"
 #include "common.h"
 #include "colvarbias_restraint.h"
+#include "colvarbias_alb.h"
 #include <fstream>
 #include <dirent.h>
 
@@ -342,6 +343,75 @@ static void check_traj_case(TrajCase const &c, Result &r, std::string const &pre
   r.seen("nontrivial", fnv(c.json()));
 }
 
+
+// ============================================================================
+// Part 1b: the columns of the adaptive linear bias (every subset of its three optional columns + energy)
+// ============================================================================
+static void check_alb_columns(int flags, Result &r, std::string const &prefix)
+{
+  rm_prefix(prefix);
+  vproxy *px = new vproxy(2);
+  px->set_target_temperature(300.0);
+  place(*px, VALS[0]);
+  px->set_prefixes(prefix + "alb");
+  std::string conf = "colvarsTrajFrequency 1\ncolvar {\n name d\n outputValue off\n distance {\n group1 { atomNumbers 1 }\n group2 { atomNumbers 2 }\n }\n}\n"
+                     "ALB {\n name alb\n colvars d\n centers 1.7\n updateFrequency 4\n forceRange 3.0\n forceConstant 0.4\n outputEnergy " + onoff(flags & 1) +
+                     "\n outputCoupling " + onoff(flags & 2) + "\n outputCenters " + onoff(flags & 4) + "\n outputGradient " + onoff(flags & 8) + "\n}\n";
+  std::string det = "{\"part\":\"alb-columns\",\"outputEnergy\":" + std::to_string(flags & 1) + ",\"outputCoupling\":" + std::to_string((flags >> 1) & 1) +
+                    ",\"outputCenters\":" + std::to_string((flags >> 2) & 1) + ",\"outputGradient\":" + std::to_string((flags >> 3) & 1);
+  if (px->config(conf) != 0) { fprintf(stderr, "library refused the ALB configuration: %s\n", px->errtxt.c_str()); exit(3); }
+  std::vector<std::map<std::string, double>> recs;
+  for (long s = 0; s < 7; s++) {
+    place(*px, VALS[s % 3]);
+    if (px->step(s) != 0) { fprintf(stderr, "library failed a step with ALB: %s\n", px->errtxt.c_str()); exit(3); }
+    r.count("transitions");
+    colvarbias_alb *a = dynamic_cast<colvarbias_alb *>(px->bias("alb"));
+    std::map<std::string, double> q;
+    q["E_alb"] = a->bias_energy;
+    q["ForceConst_0"] = a->current_coupling[0];
+    q["x0_d"] = a->colvar_centers[0].real_value;
+    q["Grad_d"] = -2.0 * (a->means[0] / a->colvar_centers[0].real_value - 1) * a->ssd[0] / (std::max((double) a->update_calls, 2.0) - 1);
+    recs.push_back(q);
+  }
+  px->end_run();
+  std::string text = slurp(prefix + "alb.colvars.traj");
+  delete px;
+  std::istringstream is(text);
+  std::string line;
+  std::vector<std::string> labels;
+  size_t nline = 0;
+  while (std::getline(is, line)) {
+    std::vector<std::string> t = split_ws(line);
+    if (t.empty()) continue;
+    if (t[0] == "#") { labels.assign(t.begin() + 2, t.end()); continue; }
+    std::set<std::string> want;
+    if (flags & 1) want.insert("E_alb");
+    if (flags & 2) want.insert("ForceConst_0");
+    if (flags & 4) want.insert("x0_d");
+    if (flags & 8) want.insert("Grad_d");
+    if (std::set<std::string>(labels.begin(), labels.end()) != want || labels.size() != want.size()) {
+      std::string ls; for (auto &l : labels) ls += l + " ";
+      r.violation("C19:traj:alb:announced-columns-differ-from-requested-outputs", det + ",\"labels\":\"" + jesc(ls) + "\"}");
+      return;
+    }
+    if (t.size() != 1 + labels.size()) { r.violation("C19:traj:alb:columns-do-not-match-label-line", det + ",\"line\":\"" + jesc(line) + "\"}"); return; }
+    long s = atol(t[0].c_str());
+    if (s < 0 || s >= (long) recs.size()) { r.violation("C19:traj:alb:wrong-step-number", det + "}"); return; }
+    for (size_t k = 0; k < labels.size(); k++) {
+      double wv = atof(t[1 + k].c_str()), iv = recs[s][labels[k]];
+      r.count("numbers_compared");
+      if (!close_rel(wv, iv, std::max(1.0, std::fabs(iv)), 1e-11, 1e-12)) {
+        r.violation("C19:traj:alb:value-under-a-label-is-not-that-quantity:" + labels[k], det + ",\"step\":" + std::to_string(s) + ",\"written\":" + num(wv) + ",\"internal\":" + num(iv) + "}");
+        return;
+      }
+    }
+    nline++;
+  }
+  if (flags && nline != 7) r.violation("C19:traj:alb:missing-lines", det + ",\"lines\":" + std::to_string(nline) + "}");
+  r.seen("states", fnv(text));
+  r.seen("nontrivial", fnv(det));
+}
+
 // ============================================================================
 // Part 2: running averages and correlation functions
 // ============================================================================
@@ -585,6 +655,7 @@ int main(int argc, char **argv)
       check_traj_case(tc[i], r, prefix);
       if (i < 2) r.sample(tc[i].json());
     }
+    for (int fl = shard; fl < 16; fl += n) { r.count("evaluations"); check_alb_columns(fl, r, prefix); }
     for (long w = shard; w < nana; w += n) {
       std::vector<int> word(Lana);
       long q = w;
